@@ -180,12 +180,12 @@ def main():
         dest, rx = demo_rx[sid]
         now = res[sid]
         meta = {
-            "id": sid, "property": sid.split("-")[0], "title": title,
+            "id": sid, "property": re.search(r"C\d\d", sid).group(0), "title": title,
             "origin": "fresh sub-agent given only the property text and a scratch worktree of /repo (nothing from /verif)",
             "needs_to_manifest": needs_of(readme),
             "files": {"patch": "patch.diff", "demo": sorted(os.listdir(os.path.join(d, "demo"))), "agent_report": "README.agent.md"},
             "confirmed_by": [
-                f"tools/seed_eval.sh {sid.split('-')[0]} seeded/{sid} {dest} '{rx}': on a scratch copy of /repo — demo passes without the patch; "
+                f"tools/seed_eval.sh {re.search(r'C[0-9][0-9]', sid).group(0)} seeded/{sid} {dest} '{rx}': on a scratch copy of /repo — demo passes without the patch; "
                 "the unedited suite (go test ./... minus carto) passes with the patch; the demo fails with the patch",
                 f"tools/seed_check.py {sid}: the property's quick check on the patched scratch copy",
             ],
